@@ -67,8 +67,11 @@ def check_with_info(case):
     for sp in spaces:
         r = restrict_petrinet_to_subspace(pn, sp)
         free = [v for v in net.names if v not in sp]
-        for p in pn_well_formed(r):
-            out.append(fail("restricted_net_malformed", "the restricted net is a well-formed encoding", f"space {sp}: {p}"))
+        bad = restricted_net_problems(r, sp, free)
+        if bad:
+            # a net that is not an encoding over the free variables has no transition semantics to compare: report, do not interpret
+            out += bad
+            break
         if pn_variables(r) != sorted(free):
             out.append(fail("restricted_net_places", "the restricted net is over exactly the variables left free", f"space {sp}", observed=pn_variables(r), expected=sorted(free)))
             continue
